@@ -843,7 +843,6 @@ func c15Safe(info *types.Info, a Atom, errObj, resObj types.Object) bool {
 	return false
 }
 
-
 // rangeSliceErrGuard inspects the conditions guarding `lastErr = result.err`
 // in Prometheus.RangeQuery: besides the err != nil test the only accepted
 // exclusion is errors.Is(result.err, context.Canceled). Returns the offending
